@@ -165,7 +165,11 @@ func knownKeys() map[string]bool {
 
 // ---------------------------------------------------------------- case
 
+var traceAll = os.Getenv("VERIF_TRACE_ALL") != ""
+
 type caseResult struct {
+	incidental []*failure
+	trace    []string
 	failure  *failure
 	deciding bool
 	known    bool
@@ -213,6 +217,8 @@ func runGenerated(t *testing.T, rt *rapid.T, spec *checkSpec) (res caseResult) {
 	}()
 	synctest.Test(t, func(t *testing.T) {
 		c := newCluster(seed)
+		c.traceOn = traceAll
+		c.setDeciding(spec)
 		beginCaseFile(spec.prop)
 		if spec.setup != nil {
 			spec.setup(c)
@@ -226,6 +232,9 @@ func runGenerated(t *testing.T, rt *rapid.T, spec *checkSpec) (res caseResult) {
 		}()
 		c.teardown()
 		res = c.result(spec)
+		if traceAll && res.failure != nil {
+			res.trace = c.trace
+		}
 	})
 	if pv != nil {
 		panic(pv)
@@ -410,7 +419,22 @@ func (c *cluster) result(spec *checkSpec) caseResult {
 		res.deciding = contains(spec.deciding, f.Oracle)
 		res.known = knownKeys()[f.Key]
 	}
+	keys := make([]string, 0, len(c.incidental))
+	for k := range c.incidental {
+		keys = append(keys, k)
+	}
+	sort.Strings(keys)
+	for _, k := range keys {
+		res.incidental = append(res.incidental, c.incidental[k])
+	}
 	return res
+}
+
+func (c *cluster) setDeciding(spec *checkSpec) {
+	c.deciding = map[string]bool{}
+	for _, o := range spec.deciding {
+		c.deciding[o] = true
+	}
 }
 
 func abbreviate(acts []vAct, max int) []string {
@@ -435,10 +459,18 @@ func report(spec *checkSpec, res caseResult) {
 	}
 	if res.failure != nil {
 		ff := failFile{Property: spec.prop, Oracle: res.failure.Oracle, Key: res.failure.Key, Msg: res.failure.Msg,
-			Step: res.failure.Step, Deciding: res.deciding, Actions: res.actions}
+			Step: res.failure.Step, Deciding: res.deciding, Actions: res.actions, Trace: res.trace}
 		path := writeFailFile(ff)
 		rec["fail"] = map[string]interface{}{"oracle": res.failure.Oracle, "key": res.failure.Key, "msg": res.failure.Msg,
 			"deciding": res.deciding, "known": res.known, "file": path, "n": len(res.actions)}
+	}
+	if len(res.incidental) > 0 {
+		var inc []map[string]interface{}
+		for _, f := range res.incidental {
+			ff := failFile{Property: spec.prop, Oracle: f.Oracle, Key: f.Key, Msg: f.Msg, Deciding: false, Actions: res.actions}
+			inc = append(inc, map[string]interface{}{"oracle": f.Oracle, "key": f.Key, "msg": f.Msg, "file": writeFailFile(ff)})
+		}
+		rec["incidental"] = inc
 	}
 	emit(rec)
 }
@@ -494,6 +526,7 @@ func replayCase(t *testing.T, spec *checkSpec, acts []vAct, trace bool) (res cas
 	synctest.Test(t, func(t *testing.T) {
 		c := newCluster(1)
 		c.traceOn = trace
+		c.setDeciding(spec)
 		beginCaseFile(spec.prop)
 		if spec.setup != nil {
 			spec.setup(c)
